@@ -1194,6 +1194,20 @@ impl<'source, 'trivia> GroupBuilder<'source, 'trivia> {
         if self.skip_next_node {
             self.skip_next_node = false;
 
+            // The span of a `let` assignment starts at its first target rather than at the keyword
+            if matches!(
+                &node.node,
+                Node::Assign {
+                    let_assignment: true,
+                    ..
+                } | Node::MultiAssign {
+                    let_assignment: true,
+                    ..
+                }
+            ) {
+                self.items.push("let ".into());
+            }
+
             // Skip rendering and add the node's source region directly
             // to the output.
             self.add_source_region(node_span);
